@@ -4,6 +4,7 @@
 #define VERIF_HARNESS_COMMON_VH_HPP
 
 #include <csignal>
+#include <sys/time.h>
 #include <cstdint>
 #include <cstdio>
 #include <cstdlib>
@@ -95,16 +96,26 @@ inline void on_signal(int sig)
   // Not async-signal-safe in the strict sense, good enough for a test harness:
   // make the result lines produced so far visible, then report how we died.
   std::fflush(stdout);
-  char const *msg = sig == SIGALRM ? "TIMEOUT\n" : "CRASH signal\n";
+  bool const timeout = sig == SIGALRM || sig == SIGPROF;
+  char const *msg = timeout ? "TIMEOUT\n" : "CRASH signal\n";
   (void)!write(1, msg, std::strlen(msg));
-  _exit(sig == SIGALRM ? 3 : 4);
+  _exit(timeout ? 3 : 4);
 }
 
-// seconds of wall clock allowed per operation line
+// seconds of CPU time allowed per operation line (a loaded machine must not turn a slow line into a TIMEOUT);
+// a wall-clock alarm of 20 times that catches an operation that blocks without burning CPU
 inline unsigned &op_budget()
 {
   static unsigned b = 10;
   return b;
+}
+
+inline void arm_watchdog(unsigned secs)
+{
+  itimerval t{};
+  t.it_value.tv_sec = static_cast<time_t>(secs);
+  (void)setitimer(ITIMER_PROF, &t, nullptr);
+  alarm(secs * 20U);
 }
 
 template <typename Handler>
@@ -115,15 +126,16 @@ int run(Handler handle)
   __sanitizer_set_death_callback(on_death);
 #endif
   std::signal(SIGALRM, on_signal);
+  std::signal(SIGPROF, on_signal);
   std::signal(SIGABRT, on_signal);
   static char outbuf[1 << 16];
   std::setvbuf(stdout, outbuf, _IOFBF, sizeof outbuf);
   std::string line;
   while (std::getline(std::cin, line))
   {
-    alarm(op_budget());
+    arm_watchdog(op_budget());
     std::string const r = handle(tokens(line));
-    alarm(0);
+    arm_watchdog(0);
     std::fputs(r.c_str(), stdout);
     std::fputc('\n', stdout);
     // one write per result line: a sanitizer abort in the next operation must not lose finished results
